@@ -734,9 +734,18 @@ impl KeyPool {
         KeyPool { used: vec![], raw, last: [raw.map(|x| x.0), raw.map(|x| x.1)] }
     }
     pub fn pick(&mut self, r: &mut Rng64, d: usize) -> ([u8; 32], String) {
-        let (k, id) = self.pick0(r, d);
-        self.last[d] = Some(k);
+        let (k, id, _) = self.pick_f(r, d);
         (k, id)
+    }
+    /// Also tells whether the key is fresh (never installed or derived in this scenario before): installing a key that
+    /// was in use before is the APPLICATION reusing a key, and a (key, nonce) repetition that follows from it is not
+    /// snow's (the C06 oracle on transport traffic skips such directions).
+    pub fn pick_f(&mut self, r: &mut Rng64, d: usize) -> ([u8; 32], String, bool) {
+        let before = self.used.clone();
+        let (k, id) = self.pick0(r, d);
+        let fresh = !before.contains(&k) && self.raw.map_or(true, |(a, b)| a != k && b != k);
+        self.last[d] = Some(k);
+        (k, id, fresh)
     }
     fn pick0(&mut self, r: &mut Rng64, d: usize) -> ([u8; 32], String) {
         let roll = r.below(130);
@@ -797,6 +806,7 @@ pub fn run_transport(cfg: &TransportCfg, sc: &mut Sc) {
     };
     let mut r = Rng64(cfg.seed ^ 0x7472616e73);
     let mut pool = KeyPool::new(sc.raw_keys);
+    let mut tainted_any = false;
     // per direction: sent messages (nonce, bytes, payload, sender's key identity at that time) and the
     // abstract state: counters and symbolic key identities ("k", "R(k)", "M(<hex>)", ...)
     struct Dir {
@@ -830,6 +840,32 @@ pub fn run_transport(cfg: &TransportCfg, sc: &mut Sc) {
             }
         }
     };
+    check_nonces(sc, &dirs);
+    // the largest legal payloads (65519 bytes: a 65535-byte message) are written and delivered; found missing by the
+    // automatic mutants (a stateful write refusing exactly the maximum size survived every check)
+    for plen in [65519usize, [65518usize, 65504, 65503][r.below(3)]] {
+        let p = r.bytes(plen);
+        let o = sc.ex.t_write(1, &p, plen + 16);
+        sc.check_panic(&o, "t_write at the size limit");
+        sc.count("t.max_size");
+        match o.bytes().map(<[u8]>::to_vec) {
+            Some(m) => {
+                dirs[0].send_n += 1;
+                let o2 = sc.ex.t_read(2, &m, plen);
+                sc.check_panic(&o2, "t_read at the size limit");
+                if o2.bytes() == Some(p.as_slice()) {
+                    dirs[0].recv_n += 1;
+                } else {
+                    sc.viol("C14", format!("{}: transport read of a legal {}-byte message failed: {:?}", cfg.name, m.len(), o2.err()));
+                    sc.viol("C02", format!("{}: a {plen}-byte transport payload was not delivered: {:?}", cfg.name, o2.err()));
+                }
+            },
+            None => {
+                sc.viol("C14", format!("{}: transport write of a legal {plen}-byte payload failed: {o:?}", cfg.name));
+                sc.viol("C02", format!("{}: transport write of a legal {plen}-byte payload failed: {o:?}", cfg.name));
+            },
+        }
+    }
     check_nonces(sc, &dirs);
     // counters far from 0: in half of the scenarios each direction starts just below a power-of-256 boundary (the
     // sender's counter through the hook, the receiver's through set_receiving_nonce), so that the traffic of the
@@ -911,6 +947,9 @@ pub fn run_transport(cfg: &TransportCfg, sc: &mut Sc) {
             sc.check_panic(&o, "t_write");
             sc.count("t.write");
             for e in &sc.ex.last_events.clone() {
+                if tainted_any {
+                    break;   // the scenario itself installed a key that had been in use (see KeyPool::pick_f)
+                }
                 if let crate::toy::Ev::Enc { key, n, ad, pt } = e {
                     if let Some((ad0, pt0)) = seen_enc.get(&(key.clone(), *n)) {
                         if ad0 != ad || pt0 != pt {
@@ -1082,7 +1121,8 @@ pub fn run_transport(cfg: &TransportCfg, sc: &mut Sc) {
                 sc.check_panic(&o, "rekey_outgoing");
                 dirs[d].send_key = rk;
             } else {
-                let (k, kid) = pool.pick(&mut r, d);
+                let (k, kid, fresh) = pool.pick_f(&mut r, d);
+                tainted_any |= !fresh;
                 let (ki, kr) = if d == 0 { (Some(&k), None) } else { (None, Some(&k)) };
                 let o = sc.ex.rekey_manual(w, ki, kr);
                 sc.check_panic(&o, "rekey_manually");
@@ -1106,8 +1146,9 @@ pub fn run_transport(cfg: &TransportCfg, sc: &mut Sc) {
             sc.count("t.rekey_onesided");
         } else if action < 88 {
             // manual rekey of direction d on one or both sides
-            let (k, kid) = pool.pick(&mut r, d);
-            let (k2, kid2) = pool.pick(&mut r, 1 - d);
+            let (k, kid, fresh) = pool.pick_f(&mut r, d);
+            let (k2, kid2, fresh2) = pool.pick_f(&mut r, 1 - d);
+            tainted_any |= !fresh || !fresh2;
             let both = r.chance(5, 6);
             // sometimes both direction keys are replaced in one call
             let two = r.chance(1, 3);
@@ -1364,6 +1405,24 @@ pub fn run_stateless(cfg: &TransportCfg, sc: &mut Sc) {
         sc.count("st.oversize_read");
         if o.err() != Some("Input") {
             sc.viol("C14", format!("{}: stateless read of a {big}-byte message gave {o:?}", cfg.name));
+        }
+        // a genuine message read into a payload buffer that is too small: refused (no panic), then read properly
+        // (found missing by the automatic mutants: the length guard of the stateless decrypt survived weakened)
+        let p = r.bytes(24);
+        let n = r.next() % 1000;
+        if let Some(m) = sc.ex.st_write(1, n, &p, 40).bytes().map(<[u8]>::to_vec) {
+            for cap in [0usize, 1, 23] {
+                let o = sc.ex.st_read(2, n, &m, cap);
+                sc.check_panic(&o, "st_read into an undersized buffer");
+                sc.count("st.undersized_read");
+                if o.is_ok() {
+                    sc.viol("C14", format!("{}: stateless read of a 24-byte payload into a {cap}-byte buffer succeeded", cfg.name));
+                }
+            }
+            let o = sc.ex.st_read(2, n, &m, 24);
+            if o.bytes() != Some(p.as_slice()) {
+                sc.viol("C16", format!("{}: stateless read after refused undersized reads failed: {o:?}", cfg.name));
+            }
         }
     }
     for step in 0..cfg.steps {
